@@ -12,7 +12,7 @@ import (
 )
 
 func init() {
-	register("C13", "Decides the structural agreement of the row codec: the kinds coerced by Valuer.Value's final switch equal the kinds coerced back by Scanner.Scan's final switch; every encoding tag Value handles (binary, string, json) is handled by Scan, and the tags buildDescriptor accepts are exactly primary plus the tags the codec knows, with implicitnull rejected on pointer fields; the protobuf filter codec agrees (every kind valueToField emits is decoded by FieldToValue, and each wrapper type written is read by the matching getter); FilterFromProto rejects nil for non-pointer columns and scans with the scanner of the same column; column/value/scanner indices are paired by the induction value in unbuildStruct, BuildStruct, parseQueryRow-style loops and parseBinlogRow (source index j for the binlog row, i for scanner and column), with the column-count test first; MakeTester collects column and value in lock step and Tester.Test compares the two Valuer results per column with driverValuesEqual, which compares byte slices by content. Not decided: value-level round trip for every type and source representation (int64, []byte text, typed binlog ints).", c13)
+	register("C13", "Decides the structural agreement of the row codec: the kinds coerced by Valuer.Value's final switch equal the kinds coerced back by Scanner.Scan's final switch; every encoding tag Value handles (binary, string, json) is handled by Scan, and the tags buildDescriptor accepts are exactly primary plus the tags the codec knows, with implicitnull rejected on pointer fields; the protobuf filter codec agrees (every kind valueToField emits is decoded by FieldToValue, and each wrapper type written is read by the matching getter); FilterFromProto rejects nil for non-pointer columns and scans with the scanner of the same column; column/value/scanner indices are paired by the induction value in unbuildStruct, BuildStruct, parseQueryRow-style loops and parseBinlogRow (source index j for the binlog row, i for scanner and column), with the exact column-count test dominating every read of the row; Scanner.Scan stores a private []byte copy that is non-nil whenever the source is (no nil-based append, no aliasing of the driver buffer); MakeTester collects column and value in lock step and Tester.Test compares the two Valuer results per column with driverValuesEqual, which compares byte slices by content. Not decided: value-level round trip for every type and source representation (int64, []byte text, typed binlog ints).", c13)
 }
 
 const fieldsPkg = "internal/fields"
@@ -352,19 +352,64 @@ func c13(c *an.Ctx) {
 
 	c.Check("R-GUARD", "FilterFromProto rejects nil for non-pointer columns and scans with the scanner of the same column", 2, func(o *an.O) {
 		fn := c.NeedFunc("livesql", "FilterFromProto")
-		okNil := false
-		for _, e := range an.Exits(fn, false) {
-			if isConstNil(an.ResultAt(e.(*ssa.Return), 2)) {
-				continue
-			}
-			gs := strings.Join(an.GuardStrings(e.Block()), " ; ")
-			if strings.Contains(gs, ".Descriptor.Ptr") && strings.Contains(gs, "== nil)") {
-				okNil = true
-				o.Site(e)
+		// evaluated: with (value is nil, column is a pointer) fixed - and the column neither
+		// tagged implicitnull nor of a nil-able kind - the scan is reached iff !(nil && !pointer)
+		scans := an.CallsAny(fn, an.CalleeSpec{Pkg: an.ModulePath + "/" + fieldsPkg, Recv: "Scanner", Name: "Scan"})
+		if len(scans) != 1 {
+			o.Fail(p.Pos(fn.Pos()), "expected one Scanner.Scan call in FilterFromProto, found %d", len(scans))
+			return
+		}
+		scan := scans[0]
+		o.Site(scan)
+		val := an.CallOf(scan).Args[1]
+		for {
+			if ci, ok := val.(*ssa.ChangeInterface); ok {
+				val = ci.X
+			} else if ct, ok := val.(*ssa.ChangeType); ok {
+				val = ct.X
+			} else {
+				break
 			}
 		}
-		if !okNil {
-			o.Fail(p.Pos(fn.Pos()), "a NULL filter value for a non-pointer column is no longer rejected")
+		for _, tc := range []struct{ isNil, isPtr, wantScan bool }{{true, false, false}, {true, true, true}, {false, false, true}, {false, true, true}} {
+			tc := tc
+			sim := &an.BoolSim{Fn: fn, Atom: func(v ssa.Value) (bool, bool) {
+				switch x := v.(type) {
+				case *ssa.UnOp:
+					if x.Op == token.MUL {
+						if fa, ok := x.X.(*ssa.FieldAddr); ok && an.FieldName(fa.X.Type(), fa.Field) == "Ptr" {
+							return tc.isPtr, true
+						}
+					}
+				case *ssa.Call:
+					if f := an.CalleeFunc(x.Common()); f != nil && f.Name() == "Contains" && len(x.Call.Args) > 0 {
+						if cs, ok := an.ConstString(x.Call.Args[len(x.Call.Args)-1]); ok && cs == "implicitnull" {
+							return false, true
+						}
+					}
+				case *ssa.BinOp:
+					if x.Op != token.EQL && x.Op != token.NEQ {
+						return false, false
+					}
+					for _, pr := range [][2]ssa.Value{{x.X, x.Y}, {x.Y, x.X}} {
+						if pr[0] == val && isConstNil(pr[1]) {
+							return tc.isNil == (x.Op == token.EQL), true
+						}
+						if _, isK := an.ConstInt(pr[1]); isK && strings.HasSuffix(an.Expr(pr[0]), ".Kind") {
+							return x.Op == token.NEQ, true // an ordinary, not nil-able kind
+						}
+					}
+				}
+				return false, false
+			}}
+			got := sim.Run()[scan.Block()]
+			if got != tc.wantScan {
+				if tc.wantScan {
+					o.FailAt(scan, "a filter value (nil=%v) for a column (pointer=%v) is never scanned", tc.isNil, tc.isPtr)
+				} else {
+					o.FailAt(scan, "a NULL filter value for a non-pointer column is no longer rejected: it is scanned into the zero value, so the shipped filter matches different rows than the original")
+				}
+			}
 		}
 		okScanner := false
 		an.Instrs(fn, func(i ssa.Instruction) {
